@@ -212,6 +212,7 @@ def run(prog: Program, rep: Report, tier: str = "quick") -> None:
     from . import game
 
     game.add_instances(rep, game.c02_job, [(i, tier) for i in range(n)], "R2.9", 100 * n)
+    rep.supersede({"R2.1"}, "R2.9", "every sort is undone: result positions")
     rep.floor("R2.1", 6 * n)
     rep.floor("R2.4", 6 * n)
     rep.floor("R2.5", 6 * n)
